@@ -10,7 +10,7 @@ PROP = dict(
         dict(name="c10_py", kind="pydriver", driver="oracle/c10_hashes.py", shim="shim/c10_shim.cc", shards_quick=8, shards_thorough=16,
              timeout_quick=400, timeout_thorough=1500),
     ],
-    rule=("Exhaustive: every length 0..300 (thorough 0..1100) x {zeros, 0xFF, i mod 251, xorshift keyed by the length}, handed to "
+    rule=("Exhaustive: every length 0..600 (thorough 0..1100) x {zeros, 0xFF, i mod 251, xorshift keyed by the length}, handed to "
           "phosg at misalignments 0..15 in exactly sized heap blocks; every split point of every input of length 0..300 for the "
           "chaining equations, each with a non-default seed; the published vectors (RFC 1321 suite, FIPS 180 examples, CRC-32 check "
           "value, FNV-1a reference values). Random: rapidcheck inputs with lengths 0..300, k*64-10..k*64+2, and scaled up to 4 KiB / "
